@@ -25,7 +25,7 @@ def level_of(e):
     path = e['ev'][1] if len(e['ev']) > 1 else None
     if path and path[0] == 'S' and len(path) >= 2 and path[1] == 'buffer':
         return 'row' if len(path) == 2 else 'cell'
-    ty = e.get('recv_ty', '')
+    ty = e.get('recv_ty', '').replace('std::collections::BTreeMap<', 'std::collections::HashMap<').replace('btree_map::', 'hash_map::')
     if 'Entry<' in ty:
         if CELL_MAP in ty:
             return 'row'
@@ -446,9 +446,10 @@ def row_sig(eng, st, path):
 def lookup_ord(prog, func, line, op):
     """ordinal (source order) of the lookup call at `line` among the lookups of the same kind in func"""
     body = prog.bodies[func]
-    suffix = {'map.get': ('::get', '::get_mut'), 'map.remove': ('::remove',)}[op]
+    suffix = {'map.get': ('::get', '::get_mut'), 'map.remove': ('::remove',), 'map.insert': ('::insert',)}[op]
     lines = sorted({t['span']['line'] for bi, t in prog.calls(body)
-                    if ((t['func'].get('fn') or {}).get('path', '')).endswith(suffix) and 'HashMap' in ((t['func'].get('fn') or {}).get('path', ''))})
+                    if ((t['func'].get('fn') or {}).get('path', '')).endswith(suffix)
+                    and ('HashMap' in ((t['func'].get('fn') or {}).get('path', '')) or 'BTreeMap' in ((t['func'].get('fn') or {}).get('path', '')))})
     return '%s#%d' % (op.split('.')[1], lines.index(line)) if line in lines else op
 
 
